@@ -392,6 +392,138 @@ def check_C04(chk):
         chk.floor(r, n)
 
 
+def _ascending_routes(chk, prog, f, uses):
+    """How each use (block, operand) of the axis list in f is known to be ascending: the list parameter (local 2) on an edge where an
+    adjacent-pair test established it, or a copy on which sort() was called.  A value merged from both (`if sorted { Cow::Borrowed(axes) }
+    else { Cow::Owned(sorted copy) }`, or a plain `let list = if .. {..} else {..}`) is judged per definition, at the definition.
+    Returns (routes, tests seen, slice operations outside the reviewed list)"""
+    def window_pos(cl, op):
+        l = op_local(op)
+        tgt = cl.resolve_ptr(l) if l is not None else None
+        if tgt is None or tgt[0] != 2:
+            return None
+        for e in tgt[1]:
+            if e[0] == "index":
+                c = an.const_of(cl, {"k": "copy", "place": {"l": e[1], "p": []}})
+                return c.get("val") if c else None
+            if e[0] == "constindex":
+                return e[1]
+        return None
+
+    def pair_test(cl):
+        """('le'|'lt'|'gt'|'ge') of the comparison window[0] OP window[1] the closure returns, else None"""
+        cmps = [(callee_name(t["callee"]).split("::")[-1], t) for b_, t in cl.calls() if callee_name(t["callee"]).startswith("core::cmp::PartialOrd::")]
+        if len(cmps) != 1 or list(cl.switches()) or an.call_dest_local(cmps[0][1]) != 0:
+            return None
+        op, t = cmps[0]
+        i0, i1 = window_pos(cl, t["args"][0]), window_pos(cl, t["args"][1])
+        if (i0, i1) == (0, 1):
+            return op
+        if (i0, i1) == (1, 0):
+            return {"le": "ge", "lt": "gt", "ge": "le", "gt": "lt"}.get(op)
+        return None
+
+    sorted_edges = []  # (switch block, target) edges on which the caller's list is known to be ascending
+    tests = []
+    for it in IT.iterations(prog, f, include_nested=False):
+        if it.kind != "closure" or it.consumer not in ("all", "any"):
+            continue
+        ch = it.chain()
+        wt = IT.chain_get(ch, "windows")
+        if IT.chain_names(ch) != ["windows"] or wt is None or const_val(wt["args"][1]) != 2 or ch[-1][1] is None or ch[-1][1][0] != 2:
+            continue
+        op = pair_test(it.body)
+        chk.fns_analysed.add(it.body.path)
+        for sb, s_ in an.switches_on_call_result(f, it.bb):
+            stt = f.term(sb)
+            t_true, t_false = stt["otherwise"], an.edge_target(stt, 0)
+            if it.consumer == "all" and op in ("le", "lt"):
+                sorted_edges.append((sb, t_true))
+                tests.append("windows(2).all(w[0] %s w[1])" % op)
+            if it.consumer == "any" and op in ("gt", "ge"):
+                sorted_edges.append((sb, t_false))
+                tests.append("!windows(2).any(w[0] %s w[1])" % op)
+    for b_, t in f.calls():
+        if callee_is(t["callee"], "core::slice::<impl [T]>::is_sorted"):
+            for sb, s_ in an.switches_on_call_result(f, b_):
+                sorted_edges.append((sb, f.term(sb)["otherwise"]))
+                tests.append("is_sorted()")
+    srt = [(b, t) for b, t in f.calls() if callee_is(t["callee"], "alloc::slice::<impl [T]>::sort", "core::slice::<impl [T]>::sort_unstable", "alloc::slice::<impl [T]>::sort_unstable")]
+    tv = [(b, t) for b, t in f.calls() if callee_is(t["callee"], "alloc::slice::<impl [T]>::to_vec", "alloc::borrow::ToOwned::to_owned")]
+
+    def merged_defs(op):
+        """the definitions of the multiply-defined local the operand is a view of (through borrows, copies and Deref / as_ref calls), if any"""
+        l = op_local(op) if not isinstance(op, int) else op
+        for _ in range(10):
+            if l is None:
+                return None
+            ds = f.defs.get(l, [])
+            if len(ds) > 1 and all(x[0] == "assign" for x in ds):
+                return ds
+            tg = f.resolve_ptr(l)
+            if tg is not None and tg[0] != l:
+                l = tg[0]
+                continue
+            d_ = f.single_def(l)
+            if d_ and d_[0] == "assign" and d_[3]["k"] == "use":
+                l = op_local(d_[3]["op"])
+                continue
+            if d_ and d_[0] == "call" and d_[2]["args"] and callee_name(d_[2]["callee"]).split("::")[-1] in ("deref", "as_ref", "borrow", "as_slice"):
+                l = op_local(d_[2]["args"][0])
+                continue
+            return None
+        return None
+
+    def route(deps_op, at):
+        sl, info = f.slice_locals(deps_op)
+        copies = [x for x in tv if an.call_dest_local(x[1]) in sl]
+        if copies:
+            # a sort of that same copy dominates the use
+            cdst = an.call_dest_local(copies[0][1])
+            sorted_first = [sb_ for sb_, st_ in srt if all(f.dominates(sb_, a_) for a_ in at) and cdst in f.slice_locals(st_["args"][0])[0]]
+            return "sorted-copy" if sorted_first else "UNSORTED-COPY"
+        if 2 in sl:
+            guarded = any(all(an.dominated_by_edge(f, sb, tgt, a_) for a_ in at) for sb, tgt in sorted_edges)
+            return "as-given-under-sortedness-test" if guarded else "AS-GIVEN-WITHOUT-TEST"
+        return "UNKNOWN-ARGUMENT"
+
+    routes = []
+    for mb, mop in uses:
+        md = merged_defs(mop)
+        if md:
+            for x in md:
+                rv = x[3]
+                ops_ = rv.get("ops") if rv["k"] == "aggregate" else ([rv["op"]] if rv["k"] == "use" else None)
+                if not ops_ or len(ops_) != 1:
+                    routes.append("UNKNOWN-ARGUMENT")
+                else:
+                    routes.append(route(ops_[0], [x[1]]))
+        else:
+            routes.append(route(mop, [mb]))
+    # nothing else rearranges the list: the slice/vector methods used are the reviewed ones
+    slice_calls = sorted({callee_name(t["callee"]).split("::")[-1] for b, t in f.calls() if callee_name(t["callee"]).startswith(("core::slice::", "alloc::slice::", "alloc::vec::Vec::"))})
+    extra_calls = [c for c in slice_calls if c not in ("iter", "into_iter", "len", "windows", "to_vec", "sort", "sort_unstable", "is_sorted", "is_empty", "as_slice", "deref", "get", "contains", "split_first", "split_last", "first", "last", "split_at")]
+    return routes, tests, extra_calls
+
+
+def _renumbering_source(prog, g):
+    """(block, source operand-or-local) of the iteration in marginalize_unchecked that walks the axes (the one around the marginalize_axis call)"""
+    its = IT.iterations(prog, g)
+    unit = [g] + prog.closures_of(g.path)
+    ms = [(h, b, t) for h in unit for b, t in an.calls(h, SP + "marginalize_axis")]
+    if len(ms) != 1:
+        return None
+    h, mb, mt = ms[0]
+    inside = [it for it in its if it.body is h and mb in it.blocks]
+    itM = min(inside, key=lambda it: len(it.blocks)) if inside else None
+    if itM is None or itM.parent is not g:
+        return None
+    src = itM.chain()[-1][1]
+    if src is None:
+        return None
+    return itM.bb, src[0]
+
+
 def c04a(chk):
     prog = chk.prog
     f = chk.fn(MARG)
@@ -546,78 +678,17 @@ def c04a(chk):
                     too = "TooManyAxes" in errs and an.dominated_by_edge(f, sb, st["otherwise"], errs["TooManyAxes"])
     chk.ob("C04.a", "marginalize/too-many-test=len>=dimensions", too, f.loc(), "removing every axis (axes.len() >= dimensions()) is an error")
     # sortedness.  Every marginalize_unchecked call receives either a copy on which sort() was called, or the caller's list on an
-    # edge where an adjacent-pair test established ascending order.
-    def window_pos(cl, op):
-        l = op_local(op)
-        tgt = cl.resolve_ptr(l) if l is not None else None
-        if tgt is None or tgt[0] != 2:
-            return None
-        for e in tgt[1]:
-            if e[0] == "index":
-                c = an.const_of(cl, {"k": "copy", "place": {"l": e[1], "p": []}})
-                return c.get("val") if c else None
-            if e[0] == "constindex":
-                return e[1]
-        return None
-
-    def pair_test(cl):
-        """('le'|'lt'|'gt'|'ge') of the comparison window[0] OP window[1] the closure returns, else None"""
-        cmps = [(callee_name(t["callee"]).split("::")[-1], t) for b_, t in cl.calls() if callee_name(t["callee"]).startswith("core::cmp::PartialOrd::")]
-        if len(cmps) != 1 or list(cl.switches()) or an.call_dest_local(cmps[0][1]) != 0:
-            return None
-        op, t = cmps[0]
-        i0, i1 = window_pos(cl, t["args"][0]), window_pos(cl, t["args"][1])
-        if (i0, i1) == (0, 1):
-            return op
-        if (i0, i1) == (1, 0):
-            return {"le": "ge", "lt": "gt", "ge": "le", "gt": "lt"}.get(op)
-        return None
-
-    sorted_edges = []  # (switch block, target) edges on which the caller's list is known to be ascending
-    tests = []
-    for it in IT.iterations(prog, f, include_nested=False):
-        if it.kind != "closure" or it.consumer not in ("all", "any"):
-            continue
-        ch = it.chain()
-        wt = IT.chain_get(ch, "windows")
-        if IT.chain_names(ch) != ["windows"] or wt is None or const_val(wt["args"][1]) != 2 or ch[-1][1] is None or ch[-1][1][0] != 2:
-            continue
-        op = pair_test(it.body)
-        chk.fns_analysed.add(it.body.path)
-        for sb, s_ in an.switches_on_call_result(f, it.bb):
-            stt = f.term(sb)
-            t_true, t_false = stt["otherwise"], an.edge_target(stt, 0)
-            if it.consumer == "all" and op in ("le", "lt"):
-                sorted_edges.append((sb, t_true))
-                tests.append("windows(2).all(w[0] %s w[1])" % op)
-            if it.consumer == "any" and op in ("gt", "ge"):
-                sorted_edges.append((sb, t_false))
-                tests.append("!windows(2).any(w[0] %s w[1])" % op)
-    for b_, t in f.calls():
-        if callee_is(t["callee"], "core::slice::<impl [T]>::is_sorted"):
-            for sb, s_ in an.switches_on_call_result(f, b_):
-                sorted_edges.append((sb, f.term(sb)["otherwise"]))
-                tests.append("is_sorted()")
-    srt = [(b, t) for b, t in f.calls() if callee_is(t["callee"], "alloc::slice::<impl [T]>::sort", "core::slice::<impl [T]>::sort_unstable", "alloc::slice::<impl [T]>::sort_unstable")]
-    tv = [(b, t) for b, t in f.calls() if callee_is(t["callee"], "alloc::slice::<impl [T]>::to_vec", "alloc::borrow::ToOwned::to_owned")]
-    routes = []
-    for mb, mt in mu:
-        sl, info = f.slice_locals(mt["args"][1])
-        copies = [x for x in tv if an.call_dest_local(x[1]) in sl]
-        if copies:
-            # a sort of that same copy dominates the call
-            cdst = an.call_dest_local(copies[0][1])
-            sorted_first = [sb_ for sb_, st_ in srt if f.dominates(sb_, mb) and cdst in f.slice_locals(st_["args"][0])[0]]
-            routes.append("sorted-copy" if sorted_first else "UNSORTED-COPY")
-        elif 2 in sl:
-            guarded = any(an.dominated_by_edge(f, sb, tgt, mb) for sb, tgt in sorted_edges)
-            routes.append("as-given-under-sortedness-test" if guarded else "AS-GIVEN-WITHOUT-TEST")
-        else:
-            routes.append("UNKNOWN-ARGUMENT")
-    route_ok = bool(routes) and all(r in ("sorted-copy", "as-given-under-sortedness-test") for r in routes) and "sorted-copy" in routes
-    # nothing else rearranges the list: the slice/vector methods used in marginalize are the reviewed ones
-    slice_calls = sorted({callee_name(t["callee"]).split("::")[-1] for b, t in f.calls() if callee_name(t["callee"]).startswith(("core::slice::", "alloc::slice::", "alloc::vec::Vec::"))})
-    extra_calls = [c for c in slice_calls if c not in ("iter", "into_iter", "len", "windows", "to_vec", "sort", "sort_unstable", "is_sorted", "is_empty", "as_slice", "deref", "get", "contains", "split_first", "split_last", "first", "last", "split_at")]
+    # edge where an adjacent-pair test established ascending order - or the list is handed over as given and marginalize_unchecked
+    # itself establishes the order of what its renumbering loop walks.
+    routes, tests, extra_calls = _ascending_routes(chk, prog, f, [(mb, mt["args"][1]) for mb, mt in mu])
+    if routes and all(r == "AS-GIVEN-WITHOUT-TEST" for r in routes):
+        g = chk.fn(MARG_U)
+        rs_ = _renumbering_source(prog, g) if g is not None else None
+        if rs_ is not None and rs_[1] != 2:
+            r2, t2, e2 = _ascending_routes(chk, prog, g, [rs_])
+            routes, tests, extra_calls = ["in-marginalize_unchecked:" + r for r in r2], t2, extra_calls + e2
+    good = ("sorted-copy", "as-given-under-sortedness-test", "in-marginalize_unchecked:sorted-copy", "in-marginalize_unchecked:as-given-under-sortedness-test")
+    route_ok = bool(routes) and all(r in good for r in routes) and any(r.endswith("sorted-copy") for r in routes)
     route_ok = route_ok and not extra_calls
     chk.ob("C04.a", "marginalize/sorted-or-sorted-copy", route_ok, f.loc(),
            "every marginalize_unchecked call gets an ascending list: the caller's list only under an adjacent-pair sortedness test (%s), otherwise a copy that was sorted (ascending sort, nothing applied afterwards; other slice operations: %s); routes: %s" % (tests or "none found", extra_calls, routes))
@@ -667,10 +738,17 @@ def c04c(chk):
                 # the enumerate chain over the caller's list, nothing re-ordering
                 names = [n for n in IT.chain_names(itA.chain())]
                 src = itA.chain()[-1][1]
-                order_ok = sorted(names) == ["enumerate", "iter"] and src is not None and src[0] == 2
+                over_param = src is not None and src[0] == 2
+                how_src = "parameter `axes`"
+                if src is not None and not over_param and itA.parent is f:
+                    # the list walked is one this function put in order itself (sorted copy / parameter under a sortedness test): C04.a judges it
+                    r2, t2, e2 = _ascending_routes(chk, prog, f, [(itA.bb, src[0])])
+                    over_param = bool(r2) and all(r in ("sorted-copy", "as-given-under-sortedness-test") for r in r2) and not e2
+                    how_src = "a list ordered here (%s)" % r2
+                order_ok = sorted(names) == ["enumerate", "iter"] and over_param
                 if itA is not itM:
                     order_ok = order_ok and sorted(IT.chain_names(itM.chain())) == ["enumerate", "iter", "map"]
-                why_o = "adaptors %s over parameter `axes`=%s" % (IT.chain_names(itM.chain()), src is not None and src[0] == 2)
+                why_o = "adaptors %s over %s=%s" % (IT.chain_names(itM.chain()), how_src, over_param)
             # spectrum = spectrum.marginalize_axis(axis), for every element, unconditionally
             recv = itM.outer_place(mt["args"][0])
             dest = an.call_dest_local(mt)
@@ -683,8 +761,13 @@ def c04c(chk):
             def is_spec(pl):
                 return pl is not None and pl[0] == spec and not [e for e in pl[1] if e[0] != "deref"]
             uncond = itM.runs_for_every_element() and not itM.switches() and (itA is None or itA is itM or not itA.switches())
-            once_ok = spec is not None and is_spec(recv) and any(is_spec(x) for x in stores) and ret and uncond and not [sw for sw in f.switches() if sw[0] != itM.switch_bb and sw[0] not in itM.blocks]
-            why_m = "receiver is the running copy=%s, result stored back=%s, the copy is returned=%s, unconditional for every axis=%s" % (is_spec(recv), any(is_spec(x) for x in stores), ret, uncond)
+            # the walk is on every path to the return (a branch before it may prepare the list, not bypass the walk)
+            rets = [b_ for b_ in f.nodes() if f.term(b_)["k"] == "return"]
+            hdr = itM.bb if itM.parent is f else None
+            bypass = hdr is None or any(b_ in f.reachable_from(0, avoid={hdr}) for b_ in rets)
+            once_ok = spec is not None and is_spec(recv) and any(is_spec(x) for x in stores) and ret and uncond and not bypass
+            why_bypass = bypass
+            why_m = "receiver is the running copy=%s, result stored back=%s, the copy is returned=%s, unconditional for every axis=%s, the walk can be bypassed=%s" % (is_spec(recv), any(is_spec(x) for x in stores), ret, uncond, why_bypass)
     chk.ob("C04.c", "marginalize_unchecked/axes-in-given-order", order_ok, where, "the axes are walked as given, no re-sorting or reversal (%s)" % why_o)
     chk.ob("C04.c", "marginalize_unchecked/renumber=original-removed", renum_ok, where, "the k-th axis removed is Axis(original.0 - k) with k the enumerate index (%s)" % why_r)
     chk.ob("C04.c", "marginalize_unchecked/one-marginalize_axis-per-axis", once_ok, where, "spectrum = spectrum.marginalize_axis(axis) for every axis, unconditionally (%s)" % why_m)
